@@ -142,7 +142,13 @@ def lib_np_isscalar(e, st, a, kw, n):
 
 
 def lib_dict(e, st, a, kw, n):
-    return VDict(kw)
+    d = {}
+    for k_ in n.keywords:
+        if k_.arg is None:                 # **other
+            o = e.ev(k_.value, st)
+            d.update(o.d)
+    d.update({k_: v_ for k_, v_ in kw.items() if k_ is not None})
+    return VDict(d)
 
 
 def install(eng):
